@@ -556,8 +556,33 @@ def analyse_coro(p):
 # ---- miscellaneous fixed shapes (each found by a seeded-change agent on the unmodified tree or taken from DESIGN.md) --------
 MISC_HDR = HDR + ["class T(Entity):", "    clk = Port.input(Bit)", "    a = Port.input(Bit)", "    b = Port.input(Bit)",
                   "    x = Port.input(Unsigned[2])", "    w = Port.input(BitVector[4])", "    o = Port.output(Bit, default=False)",
-                  "    o2 = Port.output(Unsigned[2], default=0)", "    def architecture(self):"]
+                  "    o2 = Port.output(Unsigned[2], default=0)", "    def architecture(self):",
+                  # an enum / integer / bool valued selector driven by another process
+                  "        se = Signal[E3](E3.ea, name='se')", "        si = Signal[int](0, name='si')",
+                  "        @std.sequential(std.Clock(self.clk))", "        def drive_selectors():",
+                  "            if self.a:", "                se.next = E3.eb", "            elif self.b:", "                se.next = E3.ec",
+                  "            else:", "                se.next = E3.ea",
+                  "            si.next = 1 if self.b else 2 if self.a else 0"]
+MISC_HDR = [l for l in MISC_HDR if not l.startswith("class T(")]
+MISC_HDR = MISC_HDR[:len(HDR)] + ["from cohdl import enum", "class E3(enum.Enum):", "    ea = enum.auto()", "    eb = enum.auto()", "    ec = enum.auto()",
+                                  "class T(Entity):"] + MISC_HDR[len(HDR):]
 MISC = {
+    # select_with / std.select without default on selector types whose choices do not cover every value
+    "select_with-nodefault-seq-enum": (False, ["self.o2 <<= cohdl.select_with(se, {E3.ea: Unsigned[2](1), E3.eb: Unsigned[2](2)})"]),
+    "select_with-default-seq-enum": (False, ["self.o2 <<= cohdl.select_with(se, {E3.ea: Unsigned[2](1), E3.eb: Unsigned[2](2)}, default=Unsigned[2](3))"]),
+    "select_with-nodefault-seq-int": (False, ["self.o2 <<= cohdl.select_with(si, {0: Unsigned[2](1), 1: Unsigned[2](2)})"]),
+    "select_with-nodefault-seq-bool": (False, ["k = self.a == self.b", "self.o2 <<= cohdl.select_with(k, {True: Unsigned[2](1)})"]),
+    "std-select-nodefault-seq-enum": (False, ["self.o2 <<= std.select(se, {E3.ea: Unsigned[2](1), E3.ec: Unsigned[2](2)})"]),
+    "std-select-nodefault-in-branch-enum": (False, ["if self.a:", "    self.o2 <<= std.select(se, {E3.ea: Unsigned[2](1), E3.ec: Unsigned[2](2)})"]),
+    "select_with-nodefault-async-enum": (True, ["await self.a", "self.o2 <<= cohdl.select_with(se, {E3.ea: Unsigned[2](1), E3.eb: Unsigned[2](2)})"]),
+    # a Signal constructed inside the body in one branch and read after / outside that branch
+    "local-signal-in-if-read-after": (False, ["if self.a:", "    loc = Signal[Unsigned[2]](self.x)", "    self.o <<= loc[0]", "self.o2 <<= loc"], True),
+    "local-signal-in-for-break-read-after": (False, ["for i in range(2):", "    if self.x[i]:", "        loc = Signal[Unsigned[2]](self.x + i)", "        break",
+                                                     "self.o2 <<= loc"], True),
+    "local-signal-in-match-read-after": (False, ["match self.x:", "    case 0:", "        loc = Signal[Unsigned[2]](self.x + 1)", "    case _:", "        pass",
+                                                 "self.o2 <<= loc"], True),
+    "local-signal-before-branch-ok": (False, ["loc = Signal[Unsigned[2]](self.x)", "if self.a:", "    self.o2 <<= loc", "self.o <<= loc[1]"]),
+    "local-signal-inside-branch-only-ok": (False, ["if self.a:", "    loc = Signal[Unsigned[2]](self.x)", "    self.o2 <<= loc"]),
     "select_with-nodefault-seq": (False, ["self.o2 <<= cohdl.select_with(self.x, {0: Unsigned[2](1), 1: Unsigned[2](2)})"]),
     "select_with-default-seq": (False, ["self.o2 <<= cohdl.select_with(self.x, {0: Unsigned[2](1), 1: Unsigned[2](2)}, default=Unsigned[2](3))"]),
     "std-select-nodefault-seq": (False, ["self.o2 <<= std.select(self.x, {0: Unsigned[2](1), 2: Unsigned[2](2)})"]),
